@@ -215,6 +215,8 @@ type caseT struct {
 	ts         string // none | bridge | remote
 	tsMid      string
 	served     bool
+	late       string // "" | bridge | route | remote : what appears for the tunnel id while the request polls (ts none only)
+	lateMid    string
 	parseError string
 }
 
@@ -255,6 +257,9 @@ func (c *caseT) String() string {
 		fmt.Fprintf(&sb, "%s %s", c.ts, c.tsMid)
 	default:
 		sb.WriteString("none")
+	}
+	if c.late != "" {
+		fmt.Fprintf(&sb, " late %s %s", c.late, c.lateMid)
 	}
 	return sb.String()
 }
@@ -314,6 +319,17 @@ func parseCase(s string) (c *caseT, err error) {
 	case "none":
 	default:
 		panic("bad ts " + c.ts)
+	}
+	if i < len(t) {
+		expect("late")
+		c.late = next()
+		if c.late != "bridge" && c.late != "route" && c.late != "remote" {
+			panic("bad late " + c.late)
+		}
+		c.lateMid = next()
+		if c.ts != "none" {
+			panic("late only with ts none")
+		}
 	}
 	return c, nil
 }
@@ -396,6 +412,17 @@ func toModel(m mappingT) *models.PortMapping {
 		pm.ExpiresAt = &t
 	}
 	return pm
+}
+
+// readBarrier: GenericRepository.Get coalesces concurrent reads of one key (singleflight), so a read that starts
+// AFTER a write completed can still be handed the pre-write value of a read that was already in flight (here: the
+// asynchronous notifyTargetClientToOpenTunnel started by the set-up tunnel).  The case under test is "the mapping
+// is in the listed state when the request arrives", so reads through the same service are drained first: a call
+// that joined a stale flight returns with it, the next one starts a fresh read.
+func (w *world) readBarrier(id string) {
+	for i := 0; i < 3; i++ {
+		w.pms.GetPortMapping(id)
+	}
 }
 
 type peer struct {
@@ -650,6 +677,7 @@ func runCaseInner(c *caseT) string {
 		} else if err := w.mrepo.DeletePortMapping(setup.id); err != nil {
 			return "setup-failed:delete-mapping"
 		}
+		w.readBarrier(setup.id)
 	case "remote", "local":
 		if err := w.startNodeB(); err != nil {
 			return "setup-failed:listen"
@@ -697,19 +725,90 @@ func runCaseInner(c *caseT) string {
 		done <- w.open(r, payload)
 	}()
 	ret := "pending"
-	select {
-	case e := <-done:
+	finished := false
+	classify := func(e error) string {
 		switch {
 		case e == nil:
-			ret = "nil"
+			return "nil"
 		case strings.HasPrefix(e.Error(), "PANIC"):
 			return "panic " + strings.ReplaceAll(e.Error(), " ", "_")
 		case coreerrors.IsCode(e, coreerrors.CodeTunnelModeSwitch):
-			ret = "switch"
-		default:
-			ret = "err"
+			return "switch"
 		}
-	case <-time.After(1500 * time.Millisecond):
+		return "err"
+	}
+	if c.late != "" {
+		// The request found nothing at arrival.  Every path of handleTunnelOpen writes its acknowledgement only
+		// after the arrival-time bridge and route lookups, so once the ack is on the wire (or the call returned) the
+		// arrival phase is over: the request is refused, owns a new bridge, or polls.  Only then does the tunnel appear.
+		for dl := time.Now().Add(5 * time.Second); time.Now().Before(dl) && !finished; {
+			select {
+			case e := <-done:
+				ret, finished = classify(e), true
+			default:
+			}
+			if a, _ := readAck(r.cli.snapshot()); a == "ok" || a == "fail" { // not a half-written packet
+				break
+			}
+			time.Sleep(100 * time.Microsecond)
+		}
+		// acknowledged with success: a listen client now creates its own bridge and returns at once; anybody else
+		// polls.  Give the first kind ample time to finish before the other tunnel is set up.
+		if a, _ := readAck(r.cli.snapshot()); a == "ok" && !finished {
+			select {
+			case e := <-done:
+				ret, finished = classify(e), true
+			case <-time.After(300 * time.Millisecond):
+			}
+		}
+		own := false
+		if _, sID, _, ok := w.sm.VerifBridgeEnds(tunnelID); ok && (sID == r.id || sID == r.srv.RemoteAddr().String()) {
+			own = true // the requester is the source of its own new tunnel: nothing else can appear under this id
+		}
+		if !own {
+			lm, listed := final[c.lateMid]
+			switch c.late {
+			case "bridge":
+				if !listed {
+					return "setup-failed:late-mapping"
+				}
+				s, err := w.connect("S")
+				if err != nil {
+					return "setup-failed:connect"
+				}
+				w.handshake(s, lm.listen, true)
+				w.open(s, openPayload(lm.id, "", ""))
+				if mid, sID, _, ok := w.sm.VerifBridgeEnds(tunnelID); !ok || mid != lm.id || sID == "" {
+					return "setup-failed:late-bridge"
+				}
+				s.cli.drain()
+				src = s
+			case "route", "remote":
+				if err := w.startNodeB(); err != nil {
+					return "setup-failed:listen"
+				}
+				st := &session.TunnelWaitingState{TunnelID: tunnelID, MappingID: c.lateMid, SourceNodeID: "node-B"}
+				if c.late == "route" {
+					st.SourceNodeID = "node-A"
+				}
+				if listed {
+					st.SourceClientID, st.TargetClientID = lm.listen, lm.target
+				}
+				if err := w.rt.RegisterWaitingTunnel(w.ctx, st); err != nil {
+					return "setup-failed:route"
+				}
+			}
+		}
+	}
+	if !finished {
+		select {
+		case e := <-done:
+			ret = classify(e)
+		case <-time.After(1500 * time.Millisecond):
+		}
+	}
+	if strings.HasPrefix(ret, "panic") {
+		return ret
 	}
 
 	ack, rest := readAck(r.cli.snapshot())
@@ -721,7 +820,7 @@ func runCaseInner(c *caseT) string {
 			att = "src"
 		}
 	}
-	if att == "none" && (c.ts == "remote" || c.ts == "local") {
+	if att == "none" && (c.ts == "remote" || c.ts == "local" || c.late == "remote" || c.late == "route") {
 		wait := 20 * time.Millisecond
 		if ack == "ok" {
 			wait = 500 * time.Millisecond
@@ -821,6 +920,32 @@ func matrix() []*caseT {
 	return out
 }
 
+// lateMatrix: nothing exists for the tunnel id when the request arrives; while the request polls, the tunnel
+// appears — as a local bridge (opened by the rightful listen client through the real startSourceBridge), as a
+// route naming this node, or as a route naming another node — for the mapping the requester presented or for
+// another one.  identity (6) x credential (7) x late state (6).
+func lateMatrix() []*caseT {
+	var out []*caseT
+	type ident struct {
+		hs  int
+		cid int64
+	}
+	ids := []ident{{0, 0}, {2, 11}, {1, 11}, {1, 22}, {1, 33}, {1, 34}}
+	creds := [][3]string{{"M", "", ""}, {"M", "s3cretM", ""}, {"M", "wrong", ""}, {"M", "", "resume-token-1"}, {"", "", ""},
+		{"F", "", ""}, {"F", "s3cretF", ""}}
+	for _, id := range ids {
+		for _, cr := range creds {
+			for _, kind := range []string{"bridge", "route", "remote"} {
+				for _, mid := range []string{"M", "F"} {
+					out = append(out, &caseT{pl: "ok", hs: id.hs, cid: id.cid, rmid: cr[0], rsec: cr[1], rtok: cr[2],
+						maps: []mappingT{mapM, mapF}, ts: "none", late: kind, lateMid: mid})
+				}
+			}
+		}
+	}
+	return out
+}
+
 func randomCases(r *vc.Rand, n int) []*caseT {
 	var out []*caseT
 	ids := []string{"M", "F", "G"}
@@ -863,8 +988,8 @@ func randomCases(r *vc.Rand, n int) []*caseT {
 		if r.Intn(12) == 0 {
 			c.rtok = "tok"
 		}
-		switch r.Intn(5) {
-		case 0:
+		switch r.Intn(6) {
+		case 0, 5:
 			c.ts = "none"
 		case 1, 2:
 			c.ts, c.tsMid = "bridge", vc.Pick(r, ids)
@@ -918,6 +1043,19 @@ func randomCases(r *vc.Rand, n int) []*caseT {
 		if c.pl == "empty" {
 			// an empty payload names the empty tunnel id: no pre-existing tunnel can be addressed
 			c.ts, c.tsMid, c.served = "none", "", false
+		} else if c.ts == "none" && r.Intn(2) == 0 {
+			// the tunnel appears while the request polls
+			c.late = []string{"bridge", "bridge", "route", "remote"}[r.Intn(4)]
+			c.lateMid = vc.Pick(r, ids)
+			if c.late == "bridge" {
+				// a bridge can only be opened by the rightful listen client of a usable, listed mapping
+				c.late = ""
+				for _, x := range c.maps {
+					if x.active && !x.revoked && x.expired != 1 && (x.id == c.lateMid || c.late == "") {
+						c.late, c.lateMid = "bridge", x.id
+					}
+				}
+			}
 		}
 		out = append(out, c)
 	}
@@ -966,6 +1104,7 @@ func main() {
 	seed := flag.Uint64("seed", 1, "")
 	stats := flag.String("stats", "", "")
 	noGen := flag.Bool("nogen", false, "")
+	repeat := flag.Int("repeat", 1, "run every corpus case this many times (stress)")
 	flag.Parse()
 	out := vc.NewOut()
 	var corpus []string
@@ -983,7 +1122,9 @@ func main() {
 			if i := strings.Index(line, " ## "); i >= 0 {
 				line = line[:i]
 			}
-			corpus = append(corpus, line)
+			for k := 0; k < *repeat; k++ {
+				corpus = append(corpus, line)
+			}
 		}
 	}
 	runAll(out, corpus, "corpus")
@@ -993,6 +1134,11 @@ func main() {
 			lines = append(lines, c.String())
 		}
 		runAll(out, lines, "matrix")
+		lines = nil
+		for _, c := range lateMatrix() {
+			lines = append(lines, c.String())
+		}
+		runAll(out, lines, "late-matrix")
 		runAll(out, []string{"e2e"}, "e2e")
 		n := 600
 		if *tier == "thorough" {
